@@ -545,6 +545,23 @@ def run(ctx) -> None:
                    'uses uniquely named temp files')
     ctx.rule('Q5', 'the sampled values recorded in the row are the ones appended to the file that is simulated')
     ctx.rule('Q7', 'the default result file of a request is unique to it (rows of different runs never share a file by default)')
+    ctx.rule('Q11', 'the input an iteration simulates is read from the files as they are when the run is made: no function of the Monte-Carlo '
+                    'driver or the clients that reads a file is memoised (a row of a later run would record values simulated on an earlier '
+                    'version of the base input and could not be reproduced from the inputs of its own run) (C08 P2)')
+    from gxstat.runner import Renamed as _Ren
+    from rules.c08 import check_p2 as _check_p2
+    n0_ = len(ctx.obligations)
+    _check_p2(_Ren(ctx, {'P2': 'Q11'}, key_filter=lambda k: k.endswith('/memoised')))
+    mc_mem = [o for o in ctx.obligations[n0_:]]
+    # only the driver and client packages belong to this property
+    keep = []
+    for o in mc_mem:
+        if any(seg in o['where'] for seg in ('geophires_monte_carlo/', 'geophires_x_client/', 'hip_ra/__init__', 'hip_ra_x/__init__')):
+            keep.append(o)
+    del ctx.obligations[n0_:]
+    ctx.obligations.extend(keep)
+    if not keep:
+        ctx.ok('Q11', 'driver-and-clients/no-memoised-function', 'src/geophires_monte_carlo/', 'no memoised function in the driver or the clients')
     check_q1(ctx)
     check_q7(ctx)
     ctx.rule('Q8', 'exception classes defined in the repository survive pickling from a worker to the parent (a failing iteration does not break the pool)')
